@@ -26,7 +26,8 @@ Shapes ==
       /\ (sh.srkSet = 0 <=> sh.kt = "none")
       /\ (sh.srkSet = 0 => sh.used = 0 /\ sh.revoke = 0)
       /\ (sh.enc => ~sh.ext)
-      /\ (sh.revoke # 0 => ~sh.pre /\ sh.nImg = 1 /\ ~sh.enc /\ ~sh.ext) }       \* the revoking pairs on the plainest shape
+      /\ (sh.revoke # 0 => ~sh.pre /\ sh.nImg = 1 /\ ~sh.enc /\ ~sh.ext)         \* the revoking pairs on the plainest shape
+      /\ (~Full /\ sh.revoke # 0 => sh.cver = 1 /\ sh.kt = "ecc256") }              \* quick: all 64 pairs for one key type
 
 (* ---- the documented layout *)
 Al(cver, n) == IF cver = 2 THEN n ELSE ((n + 7) \div 8) * 8
